@@ -16,6 +16,8 @@ wrapper `inflate()` on top (C13's model), agreement across buffer modes for vali
 import MinizProof.Spec.Inflate
 import MinizProof.Lemmas.CoreGrow
 import MinizProof.Lemmas.CoreSession
+import MinizProof.Lemmas.CoreRingCalls
+import MinizProof.Lemmas.CoreRingRun
 import MinizProof.Props.C03
 set_option maxRecDepth 100000
 namespace C07
@@ -245,6 +247,177 @@ theorem valid_zlib_stream_under_any_schedule (flags : Nat) (calls : List (Array 
     (0 + lastGrant ((c, g) :: calls) - 0) flags maxDist zr rfl ⟨rfl, rfl, rfl⟩ hflat hz hstop (Nat.zero_le _) hspec hroom
   refine ⟨by rw [← h1]; exact o1, by rw [← h3]; exact o2, ?_, fun i hi => by rw [← h2]; exact o4 i hi⟩
   rw [← h4 (by rw [o1]; decide)]; exact o3
+
+/-! ### Across buffer modes: a ring buffer against a flat buffer
+
+`RingRel W base p oR oF`: the ring `oR` (size `W`, write cursor `p`, current lap started at flat
+position `base`) holds the last `W` bytes of the flat buffer `oF` — below `p` the current lap, from
+`p` on the previous one. `FlagsRF`: the two flags words differ only in the buffer-mode bit.
+Proved from one equation per non-writing state, a content lemma per writing state (literal, stored
+bytes, byte-serial match copy with the ring's modular source index), the invariant that `dist` is a
+DEFLATE distance (1..32768) between the distance symbol and the end of the copy, and the epilogue.
+The exception is inherent: a distance that reaches before the start of the data is rejected with a
+flat buffer, while a ring (which may legitimately hold earlier history) cannot notice it. -/
+open Model.Core in
+/-- ONE CALL, RING = FLAT, for EVERY input and disciplined register state: unless the flat call
+    reports `Failed`, the call into a ring of `W ≥ 32768` bytes reports the same status and counts and
+    saves the same registers, and the ring again holds the last `W` bytes of the flat buffer. -/
+theorem ring_call_equals_flat_call (r : Regs) (inp oR oF : Array UInt8) (p budget flagsR flagsF W base : Nat)
+    (hb : Bnd r) (hfl : FlagsRF flagsR flagsF) (hW : oR.size = W) (hbig : 32768 ≤ W)
+    (hgR : badGeometry flagsR oR.size p = false) (hbase : base + W ≤ oF.size)
+    (hrel : RingRel W base p oR oF)
+    (hno : (decompress r inp oF (base + p) (min budget (W - p)) flagsF).status ≠ stFailed) :
+    (decompress r inp oR p budget flagsR).status = (decompress r inp oF (base + p) (min budget (W - p)) flagsF).status ∧
+    (decompress r inp oR p budget flagsR).consumed = (decompress r inp oF (base + p) (min budget (W - p)) flagsF).consumed ∧
+    (decompress r inp oR p budget flagsR).written = (decompress r inp oF (base + p) (min budget (W - p)) flagsF).written ∧
+    (decompress r inp oR p budget flagsR).r = (decompress r inp oF (base + p) (min budget (W - p)) flagsF).r ∧
+    RingRel W base (p + (decompress r inp oR p budget flagsR).written) (decompress r inp oR p budget flagsR).out
+      (decompress r inp oF (base + p) (min budget (W - p)) flagsF).out :=
+  decompress_ring_flat r inp oR oF p budget flagsR flagsF W base hb hfl hW hbig hgR hbase hrel hno
+
+open Model.Core in
+/-- A full ring handed back to its start (the caller has taken the `W` bytes): the relation holds
+    again with the lap base moved by `W`, so the next call is again covered by the theorem above. -/
+theorem ring_hand_back (W base : Nat) (oR oF : Array UInt8) (h : RingRel W base W oR oF) :
+    RingRel W (base + W) 0 oR oF := h.handBack
+
+open Model.Core in
+/-- At the very start any ring is related to any flat buffer (nothing has been produced yet). -/
+theorem ring_start (W : Nat) (oR oF : Array UInt8) (h : oR.size = W) : RingRel W 0 0 oR oF :=
+  ⟨h, fun i hi => absurd hi (Nat.not_lt_zero _), fun i _ hiW hb => by omega⟩
+
+open Model.Core in
+/-- THE RING DRIVER, call by call. `runRing`: every call is offered the unconsumed rest plus a new
+    chunk and may fill the ring up to its end; a full ring is handed back to its start. As long as
+    every ring call but the last is suspended and no call of the mirroring flat driver (grants: up to
+    the end of the current lap) reports `Failed`, the two drivers agree call by call: status, counts,
+    registers, and the bytes the caller takes out of the ring are the bytes the flat call wrote. -/
+theorem ring_driver_equals_flat_driver (flagsR flagsF W : Nat) (hfl : FlagsRF flagsR flagsF) (hbig : 32768 ≤ W)
+    (chunks : List (Array UInt8)) (r : Regs) (oR oF : Array UInt8) (p base : Nat) (carry : Array UInt8)
+    (hb : Bnd r) (hW : oR.size = W) (hg : badGeometry flagsR W 0 = false) (hp : p < W ∨ chunks = [])
+    (hrel : RingRel W base p oR oF) (hsz : base + W * (chunks.length + 1) ≤ oF.size)
+    (hsus : ∀ x ∈ (runRing flagsR W r oR p carry chunks).dropLast, suspended x.1)
+    (hnf : ∀ res ∈ runCalls flagsF 0 r oF (base + p) carry (ringGrants flagsR W r oR p base carry chunks),
+      res.status ≠ stFailed) :
+    RunsAgree (base + p) (runRing flagsR W r oR p carry chunks)
+      (runCalls flagsF 0 r oF (base + p) carry (ringGrants flagsR W r oR p base carry chunks)) :=
+  runRing_agrees flagsR flagsF W hfl hbig chunks r oR oF p base carry hb hW hg hp hrel hsz hsus hnf
+
+open Model.Core in
+/-- A VALID RAW STREAM THROUGH A RING, any chunking, any number of laps. A fresh decoder, a ring of
+    `W ≥ 32768` bytes, the stream cut into any chunks; every ring call but the last is suspended, the
+    mirroring flat driver never reports `Failed`, and the last lap reaches the end of the plaintext.
+    Then the last ring call reports `Done`, the written and consumed counts add up to the plaintext
+    length and the stream length, and the bytes taken out of the ring after each call, concatenated,
+    are exactly the bytes the RFC reference decoder defines. -/
+theorem valid_stream_through_a_ring (flagsR flagsF W maxDist : Nat) (hfl : FlagsRF flagsR flagsF) (hbig : 32768 ≤ W)
+    (c : Array UInt8) (cs : List (Array UInt8)) (oR : Array UInt8) (res : Spec.Inflated)
+    (hW : oR.size = W) (hg : badGeometry flagsR W 0 = false)
+    (hz : hasFlag flagsR fParseZlib = false) (hstop : hasFlag flagsR fStopOnBlockBoundary = false)
+    (hspec : Spec.inflateSpec #[] maxDist (catList (c :: cs)) 0 = .accept res)
+    (hroom : res.out.size ≤ lastGrant (ringGrants flagsR W {} oR 0 0 #[] (c :: cs)))
+    (hsus : ∀ x ∈ (runRing flagsR W {} oR 0 #[] (c :: cs)).dropLast, suspended x.1)
+    (hnf : ∀ r ∈ runCalls flagsF 0 {} (Array.replicate (W * ((c :: cs).length + 1)) 0) (0 + 0) #[]
+      (ringGrants flagsR W {} oR 0 0 #[] (c :: cs)), r.status ≠ stFailed)
+    (lastR : Res × Nat) (hlast : (runRing flagsR W {} oR 0 #[] (c :: cs)).getLast? = some lastR) :
+    lastR.1.status = stDone ∧
+    ((runRing flagsR W {} oR 0 #[] (c :: cs)).map (·.1.written)).sum = res.out.size ∧
+    ((runRing flagsR W {} oR 0 #[] (c :: cs)).map (·.1.consumed)).sum = (res.bitsUsed + 7) / 8 ∧
+    deliveredRing (runRing flagsR W {} oR 0 #[] (c :: cs)) = res.out := by
+  have hWpos : 0 < W := by omega
+  have hA := runRing_agrees flagsR flagsF W hfl hbig (c :: cs) {} oR (Array.replicate (W * ((c :: cs).length + 1)) 0) 0 0 #[]
+    Bnd_fresh hW hg (Or.inl hWpos) (ring_start W oR _ hW) (by simp) hsus hnf
+  generalize hfs : runCalls flagsF 0 {} (Array.replicate (W * ((c :: cs).length + 1)) 0) (0 + 0) #[]
+    (ringGrants flagsR W {} oR 0 0 #[] (c :: cs)) = fs at hA
+  have hfne : fs ≠ [] := RunsAgree.nonempty _ _ _ hA (by simp [runRing])
+  obtain ⟨lastF, hlastF⟩ : ∃ lf, fs.getLast? = some lf := by
+    cases h : fs.getLast? with
+    | none => exact absurd (List.getLast?_eq_none_iff.mp h) hfne
+    | some lf => exact ⟨lf, rfl⟩
+  have hsusF := RunsAgree.suspended _ _ _ hA hsus
+  obtain ⟨hl1, _⟩ := RunsAgree.last _ _ _ hA lastR lastF hlast hlastF
+  obtain ⟨hs1, hs2⟩ := RunsAgree.sums _ _ _ hA
+  have hdel := RunsAgree.deliver _ _ _ hA
+  -- the flat driver against the single flat call
+  have hgeoF : badGeometry flagsF (Array.replicate (W * ((c :: cs).length + 1)) (0 : UInt8)).size 0 = false := by
+    simp [badGeometry, hfl.flat]
+  have hgr : ringGrants flagsR W {} oR 0 0 #[] (c :: cs) =
+      (c, 0 + W) :: ringGrants flagsR W (decompress {} (#[] ++ c) oR 0 (W - 0) flagsR).r
+        (decompress {} (#[] ++ c) oR 0 (W - 0) flagsR).out (ringNext W (0 + (decompress {} (#[] ++ c) oR 0 (W - 0) flagsR).written))
+        (baseNext W 0 (0 + (decompress {} (#[] ++ c) oR 0 (W - 0) flagsR).written))
+        ((#[] ++ c).extract (decompress {} (#[] ++ c) oR 0 (W - 0) flagsR).consumed (#[] ++ c).size) cs := rfl
+  have hmono := grantsMono_ringGrants flagsR W (c :: cs) {} oR 0 0 #[]
+  have hcat := catChunks_ringGrants flagsR W (c :: cs) {} oR 0 0 #[]
+  rw [hgr] at hfs hmono hcat hroom
+  have hzero : (0 : Nat) + 0 = 0 := rfl
+  rw [hzero] at hfs
+  have hone := any_number_of_calls_equal_one_call flagsF 0 _ {} (Array.replicate (W * ((c :: cs).length + 1)) 0) 0 #[] c (0 + W)
+    Bnd_fresh hgeoF hmono (by rw [hfs]; exact hsusF) lastF (by rw [hfs]; exact hlastF)
+  rw [hfs] at hone
+  dsimp only at hone
+  rw [hcat] at hone
+  obtain ⟨o1, o2, o3, o4, _⟩ := hone
+  have hflat := C03.valid_raw_stream_decodes_one_shot {} (#[] ++ catList (c :: cs))
+    (Array.replicate (W * ((c :: cs).length + 1)) 0) 0
+    (0 + lastGrant ((c, 0 + W) :: ringGrants flagsR W (decompress {} (#[] ++ c) oR 0 (W - 0) flagsR).r
+        (decompress {} (#[] ++ c) oR 0 (W - 0) flagsR).out (ringNext W (0 + (decompress {} (#[] ++ c) oR 0 (W - 0) flagsR).written))
+        (baseNext W 0 (0 + (decompress {} (#[] ++ c) oR 0 (W - 0) flagsR).written))
+        ((#[] ++ c).extract (decompress {} (#[] ++ c) oR 0 (W - 0) flagsR).consumed (#[] ++ c).size) cs) - 0)
+    flagsF maxDist res rfl ⟨rfl, rfl, rfl⟩ hfl.flat (by rw [hfl.zlib]; exact hz) (by rw [hfl.stop]; exact hstop)
+    (Nat.zero_le _) (by simpa using hspec) ?_
+  · obtain ⟨f1, f2, f3, f4⟩ := hflat
+    refine ⟨by rw [hl1, ← o1]; exact f1, by rw [hs1, ← o3]; exact f2, ?_, ?_⟩
+    · rw [hs2, ← o4 (by rw [f1]; decide)]; exact f3
+    · rw [hdel, hzero, ← hfs, runCalls_delivered flagsF 0 _ _ _ _ _ lastF (by rw [hfs]; exact hlastF), hfs, ← o3, f2, ← o2]
+      have hsz1 := (decompress_facts {} (#[] ++ catList (c :: cs)) (Array.replicate (W * ((c :: cs).length + 1)) 0) 0
+        (0 + lastGrant ((c, 0 + W) :: ringGrants flagsR W (decompress {} (#[] ++ c) oR 0 (W - 0) flagsR).r
+          (decompress {} (#[] ++ c) oR 0 (W - 0) flagsR).out (ringNext W (0 + (decompress {} (#[] ++ c) oR 0 (W - 0) flagsR).written))
+          (baseNext W 0 (0 + (decompress {} (#[] ++ c) oR 0 (W - 0) flagsR).written))
+          ((#[] ++ c).extract (decompress {} (#[] ++ c) oR 0 (W - 0) flagsR).consumed (#[] ++ c).size) cs) - 0) flagsF).room
+      rw [f2] at hsz1
+      have hsz0 := (decompress_facts {} (#[] ++ catList (c :: cs)) (Array.replicate (W * ((c :: cs).length + 1)) 0) 0
+        (0 + lastGrant ((c, 0 + W) :: ringGrants flagsR W (decompress {} (#[] ++ c) oR 0 (W - 0) flagsR).r
+          (decompress {} (#[] ++ c) oR 0 (W - 0) flagsR).out (ringNext W (0 + (decompress {} (#[] ++ c) oR 0 (W - 0) flagsR).written))
+          (baseNext W 0 (0 + (decompress {} (#[] ++ c) oR 0 (W - 0) flagsR).written))
+          ((#[] ++ c).extract (decompress {} (#[] ++ c) oR 0 (W - 0) flagsR).consumed (#[] ++ c).size) cs) - 0) flagsF).size
+      generalize decompress {} (#[] ++ catList (c :: cs)) (Array.replicate (W * ((c :: cs).length + 1)) 0) 0
+        (0 + lastGrant ((c, 0 + W) :: ringGrants flagsR W (decompress {} (#[] ++ c) oR 0 (W - 0) flagsR).r
+          (decompress {} (#[] ++ c) oR 0 (W - 0) flagsR).out (ringNext W (0 + (decompress {} (#[] ++ c) oR 0 (W - 0) flagsR).written))
+          (baseNext W 0 (0 + (decompress {} (#[] ++ c) oR 0 (W - 0) flagsR).written))
+          ((#[] ++ c).extract (decompress {} (#[] ++ c) oR 0 (W - 0) flagsR).consumed (#[] ++ c).size) cs) - 0) flagsF = one at f4 hsz1 hsz0 ⊢
+      apply Array.ext_getElem?
+      intro i
+      rw [Array.getElem?_extract]
+      by_cases hi : i < res.out.size
+      · have := f4 i hi
+        rw [Nat.zero_add] at this
+        have hlt : i < min (0 + res.out.size) one.out.size - 0 := by omega
+        rw [if_pos hlt, Nat.zero_add, this]
+      · have hge : ¬ i < min (0 + res.out.size) one.out.size - 0 := by omega
+        rw [if_neg hge]
+        exact (Array.getElem?_eq_none (by omega)).symm
+  · -- room for the plaintext in the single flat call
+    have hle : lastGrant ((c, 0 + W) :: ringGrants flagsR W (decompress {} (#[] ++ c) oR 0 (W - 0) flagsR).r
+        (decompress {} (#[] ++ c) oR 0 (W - 0) flagsR).out (ringNext W (0 + (decompress {} (#[] ++ c) oR 0 (W - 0) flagsR).written))
+        (baseNext W 0 (0 + (decompress {} (#[] ++ c) oR 0 (W - 0) flagsR).written))
+        ((#[] ++ c).extract (decompress {} (#[] ++ c) oR 0 (W - 0) flagsR).consumed (#[] ++ c).size) cs) ≤
+        W * ((c :: cs).length + 1) := by
+      rw [← hgr]
+      have := lastGrant_ringGrants_le flagsR W (c :: cs) {} oR 0 0 #[] (by simp)
+      have e : W * ((c :: cs).length + 1) = W * (c :: cs).length + W := Nat.mul_succ _ _
+      rw [e]
+      omega
+    have hsize : (Array.replicate (W * ((c :: cs).length + 1)) (0 : UInt8)).size = W * ((c :: cs).length + 1) :=
+      Array.size_replicate
+    rw [hsize]
+    refine Nat.le_min.mpr ⟨by omega, ?_⟩
+    rw [Nat.zero_add]
+    exact Nat.le_trans hroom hle
+
+/-- The flag hypotheses are satisfiable: raw ring (0 / with more input 2) against raw flat (4 / 6),
+    zlib ring 1 against zlib flat 5. -/
+example : Model.Core.FlagsRF 0 4 ∧ Model.Core.FlagsRF 2 6 ∧ Model.Core.FlagsRF 1 5 := by
+  refine ⟨⟨?_, ?_, ?_, ?_, ?_, ?_, ?_⟩, ⟨?_, ?_, ?_, ?_, ?_, ?_, ?_⟩, ⟨?_, ?_, ?_, ?_, ?_, ?_, ?_⟩⟩ <;> decide
 
 /-- The hypotheses are satisfiable: a stored block split inside its header with a one-byte first
     grant — first call suspended, second call `Done`. -/
